@@ -14,12 +14,13 @@ func init() {
 	eng.Register(&eng.Property{
 		ID:       "C41",
 		Title:    "Staging requests only what is missing and enforces limits",
-		Packages: []string{localEPPkg},
+		Packages: []string{localEPPkg, storePkg},
 		Explanation: "(R1, filter) in endpoint.Stage the single append to the filtered list adds paths[i] and lies under: stager.Contains(paths[i], digests[i]) succeeded and said no, and stageFromRoot(paths[i], digests[i], …) said no — same index for path and digest; the loop skips a path only on the two «available» edges; a Contains error is returned; the filtered list starts empty and is what is returned (so the result is an in-order subset); " +
 			"(R2, local sourcing is verified) stageFromRoot looks up the requested digest, writes to the sink of the requested path, and the only non-false value it returns is the stager's own Contains(path, digest) answer obtained after the copy — a copy whose content no longer has the digest is not reported as available; every failure returns false; " +
 			"(R3, scan-before-stage/transition) Stage and Transition return an error when their scanned-since flag is false, clear the flag before doing anything else, and the flag is set only by Scan; " +
 			"(R4, limits) Scan sets the two flags only after its entry-count test passed (so lastScanEntryCount ≤ maximumEntryCount whenever a flag is set and the unsigned subtraction in Stage cannot wrap); Stage refuses when maximum−lastScan < len(paths) (for a non-zero maximum) before it generates the lookup map or touches the stager; Transition's running count starts at lastScanEntryCount, refuses removals larger than the count, adds New.Count(), and core.Transition is reached only on the edges «maximum == 0» or «¬(maximum < resulting count)»; the over-limit exit returns the old entries, a problem and no error; " +
 			"(R5) the flag and count fields are read and written in Stage/Transition only while the scan lock is held (lockScanLock … unlockScanLock). " +
+			"(R6) the store's Contains may answer «not staged» from its in-memory prefix index only because Initialize rebuilds that index by listing the existing staging root — content staged before an interruption is found again and not requested twice; " +
 			"Not decided: what the stager's Contains/Sink do; Entry.Count arithmetic.",
 		Assumptions: []string{"stager.Contains reports whether content with that digest is staged for that path"},
 		Run:         runC41,
@@ -36,6 +37,7 @@ func edgeGuards(p, s *ssa.BasicBlock) []eng.Atom {
 }
 
 func runC41(c *eng.Ctx) {
+	c41PrefixIndexComplete(c)
 	st := c.MustFunc("R1", localEPPkg, "endpoint.Stage")
 	sfr := c.MustFunc("R2", localEPPkg, "endpoint.stageFromRoot")
 	tr := c.MustFunc("R3", localEPPkg, "endpoint.Transition")
